@@ -118,6 +118,52 @@ func runC16(c *Ctx) {
 			}
 			okFlag := false
 			detail := ""
+			// the error value the flag may be computed from: the command's error itself, or a
+			// variable that is nil unless it was assigned the command's error
+			isCmdErrExpr := func(t *Term) bool {
+				if cmdErr.Match(t) || (t.Orig != nil && t.Orig == cmd.Value()) {
+					return true
+				}
+				if t.Op != "phi" {
+					return false
+				}
+				sawErr := false
+				for _, a := range t.Args {
+					switch {
+					case a.Op == "const" && a.Sym == "nil":
+					case cmdErr.Match(a) || (a.Orig != nil && a.Orig == cmd.Value()) || (a.Op == "call" && a.Call == cmd):
+						sawErr = true
+					default:
+						return false
+					}
+				}
+				return sawErr
+			}
+			flagIsErrNil := false
+			if ft := ff.Term(flag); ft.Op == "binop" && ft.Sym == "==" && len(ft.Args) == 2 {
+				l, r := ft.Args[0], ft.Args[1]
+				if l.Op == "const" && l.Sym == "nil" {
+					l, r = r, l
+				}
+				if r.Op == "const" && r.Sym == "nil" && isCmdErrExpr(l) {
+					flagIsErrNil, okFlag = true, true
+					detail = "flag is (" + ft.String() + ")"
+				}
+			}
+			flagFact := func(blk *ssa.BasicBlock, want bool) bool {
+				if ok, _ := ff.BoolHoldsAt(blk, Matcher{"success flag", func(x *Term) bool { return x.V == flag }}, want); ok {
+					return true
+				}
+				if !flagIsErrNil {
+					return false
+				}
+				for _, f := range ff.FactsAt(blk) {
+					if f.IsCmp && f.R.Op == "const" && f.R.Sym == "nil" && isCmdErrExpr(f.L) && ((want && f.Op.String() == "==") || (!want && f.Op.String() == "!=")) {
+						return true
+					}
+				}
+				return false
+			}
 			if phi, ok := flag.(*ssa.Phi); ok {
 				okFlag = true
 				for i, e := range phi.Edges {
@@ -148,11 +194,11 @@ func runC16(c *Ctx) {
 				}
 				t := ff.Term(r.Results[0]).String()
 				if strings.Contains(t, "NewExecResultFail") {
-					ok, _ := ff.BoolHoldsAt(r.Block(), Matcher{"success flag", func(x *Term) bool { return x.V == flag }}, false)
+					ok := flagFact(r.Block(), false)
 					c.Require("C16.R1 result-follows-flag", "ExecResultFail", p.InstrPos(r), "Fail is returned only when the command failed", ok, "")
 				}
 				if strings.Contains(t, "NewExecResultOK") {
-					ok, _ := ff.BoolHoldsAt(r.Block(), Matcher{"success flag", func(x *Term) bool { return x.V == flag }}, true)
+					ok := flagFact(r.Block(), true)
 					c.Require("C16.R1 result-follows-flag", "ExecResultOK", p.InstrPos(r), "OK is returned only when the command succeeded", ok, "")
 				}
 			}
@@ -161,7 +207,7 @@ func runC16(c *Ctx) {
 
 	// ---- R2 discriminator
 	noRevertOf := func(fn *ssa.Function) (string, ssa.Instruction) {
-		for _, b := range fn.Blocks {
+		for _, b := range blocksDeep(fn) {
 			for _, in := range b.Instrs {
 				st, ok := in.(*ssa.Store)
 				if !ok {
@@ -194,7 +240,7 @@ func runC16(c *Ctx) {
 		// RestoreSnapshot keeps exactly noRevert events and re-indexes them snapshotIndex + k
 		rf := factsOf(restore)
 		okKeep, okIdx := false, false
-		for _, b := range restore.Blocks {
+		for _, b := range blocksDeep(restore) {
 			for _, in := range b.Instrs {
 				if st, ok := in.(*ssa.Store); ok {
 					if fa, ok := st.Addr.(*ssa.FieldAddr); ok {
@@ -376,7 +422,7 @@ func runC16(c *Ctx) {
 			// assigned the snapshot, or the shared cache object's contents are (in place)
 			okRest := false
 			detRest := ""
-			for _, b := range rest.Blocks {
+			for _, b := range blocksDeep(rest) {
 				for _, in := range b.Instrs {
 					st, isSt := in.(*ssa.Store)
 					if !isSt {
@@ -414,7 +460,7 @@ func runC16(c *Ctx) {
 		n := 0
 		for _, f := range fns {
 			ff := factsOf(f)
-			for _, b := range f.Blocks {
+			for _, b := range blocksDeep(f) {
 				for _, in := range b.Instrs {
 					fa, ok := in.(*ssa.FieldAddr)
 					if !ok {
@@ -448,7 +494,7 @@ func runC16(c *Ctx) {
 // fieldWritesAny: stores to a field named `name` of any struct in fn.
 func fieldWritesAny(fn *ssa.Function, name string) []ssa.Instruction {
 	var out []ssa.Instruction
-	for _, b := range fn.Blocks {
+	for _, b := range blocksDeep(fn) {
 		for _, in := range b.Instrs {
 			if st, ok := in.(*ssa.Store); ok {
 				if fa, ok := st.Addr.(*ssa.FieldAddr); ok {
